@@ -60,6 +60,10 @@ structure Variant where
   /-- F-SWA-capacity (C07) repaired: the sliding-window cache is sized `maxSeq * (window + maxBatch)`
       instead of `maxSeq * window + maxBatch` -/
   perSeqBatch : Bool := false
+  /-- F28 repaired: `Remove` checks for both error conditions before it changes anything, so a refused
+      removal leaves the cache as it was (pinned: cells visited before the refusing one have already been
+      changed, `shiftFn == nil` is only noticed after the metadata has been shifted) -/
+  atomicRemove : Bool := false
 deriving Repr
 
 structure Cache where
@@ -352,6 +356,25 @@ def remove (c : Cache) (seq : Nat) (b e : Int) : Cache × Rm :=
       else if !c.hasShift then (c1, .notsup)
       else ({ c1 with rows := if c.hasLayers then shiftRows seq (e + off) off r.1 c.rows else c.rows }, .ok)
 
+/-- the checks the repaired `Remove` (F28) performs before changing anything: a cell that would have to
+    shift although another sequence shares it ⇒ `shared`; something remains, it has to be re-shifted and
+    there is no `shiftFn` ⇒ `notsup` -/
+def removeGuard (c : Cache) (seq : Nat) (b e : Int) : Option Rm :=
+  if c.cells.any (fun x => decide (seq ∈ x.seqs) && !(decide (b ≤ x.pos ∧ x.pos < e)) && decide (x.pos ≥ e)
+      && sharedOther seq x.seqs) then some .shared
+  else if c.cells.any (fun x => decide (seq ∈ x.seqs) && !(decide (b ≤ x.pos ∧ x.pos < e)))
+      && decide (e ≠ maxInt32) && !c.hasShift then some .notsup
+  else none
+
+/-- `Remove` of the tree under test: pinned (`remove`: errors after partial mutation) or repaired
+    (errors leave the cache unchanged; accepted removals are those of `remove`) -/
+def removeV (c : Cache) (seq : Nat) (b e : Int) : Cache × Rm :=
+  if c.v.atomicRemove then
+    match removeGuard c seq b e with
+    | some r => (c, r)
+    | none => remove c seq b e
+  else remove c seq b e
+
 /-! ### CanResume -/
 
 def lastFrom (seq : Nat) (r : Range) : Nat → List Cell → Int → Int
@@ -383,7 +406,7 @@ def canResume (c : Cache) (seq : Nat) (pos : Int) : Bool :=
 /-- the unwind of `WrapperCache.StartForward`: `Remove(seq_k, pos_k, MaxInt32)` for every batch token
     (errors ignored) -/
 def unwind (c : Cache) (b : List Tok) : Cache :=
-  b.foldl (fun c t => (remove c t.seq t.pos maxInt32).1) c
+  b.foldl (fun c t => (removeV c t.seq t.pos maxInt32).1) c
 
 /-- `WrapperCache.StartForward`: caches in order; when one fails the earlier ones (which accepted the
     batch) are unwound, the failing one keeps whatever its own StartForward left, later ones are not
@@ -413,7 +436,7 @@ def wCopyPrefix (cs : List Cache) (src dst : Nat) (len : Int) : List Cache :=
 def wRemove : List Cache → Nat → Int → Int → List Cache × Rm
   | [], _, _, _ => ([], .ok)
   | c :: cs, seq, b, e =>
-    match remove c seq b e with
+    match removeV c seq b e with
     | (c1, .ok) => let r := wRemove cs seq b e; (c1 :: r.1, r.2)
     | (c1, r) => (c1 :: cs, r)
 
